@@ -143,6 +143,7 @@ class World:
         self.produced = 0
         self.outcome = None
         self.contended = False
+        self.pending_fifo = []
 
     # -- helpers -----------------------------------------------------------
     def now(self):
@@ -186,9 +187,10 @@ class World:
             for a in self.ws:
                 if (a is not ws and a.state == WAIT and a.blocked and a.s_req < ws.s_req
                         and ad.order_key(a) < ad.order_key(ws) and not ad.expired(a, now)):
-                    self.flag("fifo", self.tie_shape(ws),
-                              f"blocked {ws.name} (requested at {tk(ws.t_req)}) was granted at {tk(now)} "
-                              f"before earlier blocked {a.name} (requested at {tk(a.t_req)})")
+                    # the shape class is decided at the end of the run (it looks at what happened to `a`)
+                    self.pending_fifo.append((ws, a,
+                                              f"blocked {ws.name} (requested at {tk(ws.t_req)}) was granted at {tk(now)} "
+                                              f"before earlier blocked {a.name} (requested at {tk(a.t_req)})"))
                     break
         ws.state = HOLD
         ws.t_grant = now
@@ -274,9 +276,15 @@ class World:
                           f"{[(w.name, w.kind, w.amt) for w in self.occupying()]} ({ad.limit_text()}) "
                           f"but has not been granted; the clock moves on to {tk(new_time.nanoseconds)}")
 
+    def resolve_fifo(self):
+        for ws, a, desc in self.pending_fifo:
+            self.flag("fifo", self.ad.fifo_shape(self, ws, a), desc)
+        self.pending_fifo = []
+
     def finish(self, res):
         ad = self.ad
         self.outcome = res["outcome"]
+        self.resolve_fifo()
         if res["outcome"] == "storm":
             self.contended = True
             comp, shape = ad.storm_shape(self)
@@ -399,6 +407,14 @@ class Adapter:
 
     def late_shape(self, W, head):
         return W.tie_shape(head)
+
+    def fifo_shape(self, W, ws, a):
+        """ws overtook the earlier blocked a."""
+        if (a.s_grant is not None and a.s_grant > ws.s_grant and a.t_grant == ws.t_grant
+                and not any(k == "rel" for (_t, k, _i, _x) in W.log[ws.s_grant:a.s_grant])):
+            # both were admitted by the same release; only their resumption order is reversed
+            return "same-release-resumed-out-of-order"
+        return W.tie_shape(ws)
 
     # shared counter check for semaphore-like primitives
     def sem_sample(self, W, cap, avail, waiters):
@@ -1069,10 +1085,20 @@ class ThreadPoolAd(Adapter):
             return [("conservation", f"no task in service but active_workers={act} (leak)")]
         return ()
 
+    def _dropped(self):
+        return getattr(pub(self.prim, "stats"), "tasks_rejected", 0) > 0
+
     def late_shape(self, W, head):
         if pub(self.prim, "queued_tasks", 0) > 0 and pub(self.prim, "idle_workers", 0) > 0:
             return "queued-while-worker-idle"
+        if pub(self.prim, "queued_tasks", 0) == 0 and self._dropped():
+            return "after-task-dropped"  # the pool itself reports a dequeued task it refused to run
         return W.tie_shape(head)
+
+    def fifo_shape(self, W, ws, a):
+        if a.s_grant is None and self._dropped():
+            return "after-task-dropped"
+        return super().fifo_shape(W, ws, a)
 
     def starved_shape(self, W, w):
         if pub(self.prim, "queued_tasks", 0) == 0:
@@ -1187,6 +1213,7 @@ def run_case(prim, cfg, specs):
         res = run_guarded(sim, max_events=MAX_EVENTS, storm=STORM, on_event=W.on_event)
     except Exception as e:  # an exception escaping the library in a legitimate interleaving
         W.outcome = "crash"
+        W.resolve_fifo()
         W.flag("crash", type(e).__name__, f"{type(e).__name__}: {e} (escaped the simulation at {tk(W.cur_t)})")
         return W
     W.finish(res)
